@@ -265,18 +265,16 @@ def model (s : Shape) (shifts dims : List Int) : Option Shape :=
     else none
   else if shifts.length ≠ dims.length then none
   else
+    -- fix e681d51: aten_roll's loop normalises a negative dim with `self_rank` before calling the helper
     (shifts.zip dims).foldlM (fun acc (p : Int × Int) =>
       match normAxis acc.length p.2 with
       | none => none
       | some a =>
-        -- `Shape(x, start=dim, end=dim+1)` is empty for dim = -1 (end = 0): the slice length is then
-        -- an empty tensor and `Slice` refuses it
-        if p.1 ≥ 0 ∧ p.2 = -1 then none
-        else
-          let d := acc.getD a 0
-          some (setAt acc a (stepIdx d (numel acc) p.1).length)) s
+        let d := acc.getD a 0
+        some (setAt acc a (stepIdx d (numel acc) p.1).length)) s
 
-def stepTerm (x : String) (shift dim : Int) : String :=
+def stepTerm (rank : Nat) (x : String) (shift dim : Int) : String :=
+  let dim := if dim < 0 then dim + (rank : Int) else dim
   let len := if shift < 0 then tInts [-shift]
     else tOp "Sub" [tOp "Shape" [x] [("end", tI (dim + 1)), ("start", tI dim)], tInts [shift]]
   let big := tOp "Reshape" [tOp "Size" [x], "[-1]"] [("allowzero", "0")]
@@ -293,7 +291,7 @@ def term (s : Shape) (shifts dims : List Int) : String :=
     let big := tOp "Reshape" [tOp "Size" [flat], "[-1]"] [("allowzero", "0")]
     tOp "Reshape" [tOp "Concat" [tOp "Slice" [flat, len, big], tOp "Slice" [flat, "[0]", len]] [("axis", "0")],
       tOp "Shape" ["x0"] [("start", "0")]] [("allowzero", "0")]
-  else (shifts.zip dims).foldl (fun acc (p : Int × Int) => stepTerm acc p.1 p.2) "x0"
+  else (shifts.zip dims).foldl (fun acc (p : Int × Int) => stepTerm s.length acc p.1 p.2) "x0"
 
 def spec (s : Shape) (shifts dims : List Int) : Option Shape :=
   if dims.isEmpty then (if shifts.length = 1 then some s else none)
